@@ -213,7 +213,9 @@ impl JobServer {
             }
             None => None,
         };
-        let cheats = if max_jobs == 0 {
+        // The cheat pipe belongs to a token pipe: inherit it only together with
+        // the parent's jobserver, never into a jobserver of our own.
+        let cheats = if token_fds.is_some() {
             match env::var(JobServer::ENV_CHEATFDS) {
                 Ok(v) => v,
                 Err(VarError::NotPresent) => String::new(),
